@@ -1,6 +1,6 @@
 HOOK_COMMITS = ["bc7826eeb31079b932557c6566a10da9b9acc9ce"]
 _PENDING = "check not built yet in this round (planned, see DESIGN.md section 9); not a statement that the technique cannot apply"
-NOT_APPLICABLE = {p: _PENDING for p in ["C05","C09","C10","C11","C12","C16"]}
+NOT_APPLICABLE = {p: _PENDING for p in ["C05","C10","C11","C12","C16"]}
 TEXT = {
  "C17": {
   "text": "Lean mirror of integer.h / dyadic_rational.h / rational.h; theorems for every modulus m>=2 and every operand state that each "
@@ -98,6 +98,21 @@ TEXT = {
   "design_ref": "5.19",
   "note": "clause (c) is runtime monitoring on generated inputs, not proof (no executable Lean model can exhibit out-of-bounds access); variable_db/variable_order counters are opaque and observed only via sanitizers",
   "technique": "Lean 4 invariant proof (refcount protocol) + correspondence with aliased/pre-used outputs + sanitizer monitoring",
+ },
+ "C09": {
+  "text": "Model: the in-place mutation primitives of lp_algebraic_number_t (bisection step, refinement with a point incl. collapse to "
+          "a point, replacement of the polynomial by a gcd, restoration of an earlier interval). Proved for every valid representation "
+          "and every finite history of primitives applied under their guards: the denoted real and validity are preserved (C09_refine, "
+          "C09_refineAt, C09_reducePoly, C09_restore, C09_step, C09_history by induction over the history). Tie: histories of 25-50 "
+          "public calls (cmp, cmp_rational, sgn, floor, hash, to_double, add, mul, refine_const, get_value_between, copies and "
+          "destructions, polynomial sgn / evaluate / roots_isolate / feasible sets under an assignment holding pool values); after every "
+          "call the raw fields of every tracked object that changed are dumped and the driver checks, with the proved exact comparison, "
+          "that the state is a sound representation (isolating interval, cached signs) of the same extended real as at creation "
+          "(C09_transition_sound); observations made along the way are validated exactly (C07/C08 oracles), so repeated observations "
+          "can only repeat the same answer. Copies taken at any time are tracked against the original's creation-time denotation.",
+  "design_ref": "5.9",
+  "note": "found and fixed: the interval cache restore of coefficient_sgn/evaluate overwrote rational algebraic model values (e.g. 4/3 as 3x-4) with the [0,0] placeholder",
+  "technique": "Lean 4 invariant proof over the mutation primitives (induction over histories) + proved transition checker on observed C states",
  },
  "C08": {
   "text": "Every lp_value_* answer is judged through the denotation of the value as an extended real: integer / dyadic / rational / "
